@@ -1,5 +1,6 @@
 // Stub set for foyer-storage harnesses (depends on tracing + parking_lot, not on mixtrics).
-macro_rules! verif_harness {
+// `verif_harness_ns!` = everything except a checksum stand-in (the harness names its own); `verif_harness!` adds the fold.
+macro_rules! verif_harness_ns {
     ($(#[$m:meta])* $name:ident, $unwind:expr, $body:block) => {
         #[kani::proof]
         #[kani::unwind($unwind)]
@@ -12,6 +13,7 @@ macro_rules! verif_harness {
         #[kani::stub(parking_lot::RawRwLock::unlock_shared_slow, stubs::rwlock_unlock_shared_slow)]
         #[kani::stub(parking_lot::RawMutex::lock_slow, stubs::mutex_lock_slow)]
         #[kani::stub(parking_lot::RawMutex::unlock_slow, stubs::mutex_unlock_slow)]
+        #[kani::stub(foyer_common::metrics::Metrics::noop, foyer_common::metrics::Metrics::verif_noop)]
         #[kani::stub(std::backtrace::Backtrace::capture, stubs::backtrace_disabled)]
         #[kani::stub(alloc::fmt::format, stubs::fmt_format_empty)]
         #[kani::stub(core::panicking::panic_nounwind_fmt, stubs::panic_nounwind_fmt_stub)]
@@ -19,9 +21,13 @@ macro_rules! verif_harness {
         #[kani::stub(foyer_common::error::Error::with_context, foyer_common::error::Error::verif_with_context)]
         #[kani::stub(foyer_common::error::Error::new, foyer_common::error::Error::verif_new)]
         #[kani::stub(foyer_common::error::Error::with_source, foyer_common::error::Error::verif_with_source)]
-        #[kani::stub(crate::serde::Checksummer::checksum64, stubs::checksum64_fold)]
         #[kani::stub(std::time::Instant::now, stubs::instant_now_zero)]
         $(#[$m])*
         fn $name() $body
+    };
+}
+macro_rules! verif_harness {
+    ($(#[$m:meta])* $name:ident, $unwind:expr, $body:block) => {
+        verif_harness_ns! { #[kani::stub(crate::serde::Checksummer::checksum64, stubs::checksum64_fold)] $(#[$m])* $name, $unwind, $body }
     };
 }
